@@ -7,7 +7,7 @@ from ..runner import Case, Property
 class C19(Property):
     id = "C19"
     lean_module = "RosuModel.Props.C19Full"   # imports Props/C19Curve.lean (→ Props/C19Lipschitz.lean, Props/C19.lean, Props/C16Surplus.lean) and Props/C19Ieee.lean; namespace Rosu.C19
-    theorem_modules = ['RosuModel.Props.C19Curve', 'RosuModel.Props.C19Ieee', 'RosuModel.Props.C19IeeePos', 'RosuModel.Props.C19IeeeBound', 'RosuModel.Props.C19IeeeErr']   # files whose top-level theorems are all audited
+    theorem_modules = ['RosuModel.Props.C19Curve', 'RosuModel.Props.C19Ieee', 'RosuModel.Props.C19IeeePos', 'RosuModel.Props.C19IeeeBound', 'RosuModel.Props.C19IeeeErr', 'RosuModel.Props.C19IeeeSearch']   # files whose top-level theorems are all audited
     namespace = "Rosu.C19"
     design_ref = "5.19"
     level_text = (
@@ -36,7 +36,9 @@ class C19(Property):
         "Model tied to the code bit-for-bit "
         "(positions, distances, indices, also for NaN / unsorted lengths).")
     technique = "Lean 4 proof (generic arithmetic, structural) + bit-exact differential correspondence + independent oracle"
-    required_theorems = ["interpolate_err_float32", "interpolate_on_segment_float32", "segment_length_err_float32", "segment_length_underflow_example", "natural_length_err_float",
+    required_theorems = ["bsLoop_spec_ieee", "idxOfDist_spec_ieee", "idxOfDist_bracket_float", "idxOfDist_below_ieee", "idxOfDist_beyond_ieee", "positionAt_dist_err_float32",
+                         "positionAt_dist_on_polyline_float32", "positionAt_progress_err_float32", "demo_idx",
+                         "interpolate_err_float32", "interpolate_on_segment_float32", "segment_length_err_float32", "segment_length_underflow_example", "natural_length_err_float",
                          "natural_length_err_float_linear", "position_lipschitz_segment_float32", "position_arc_segment_float32", "chord_le_booked_float",
                          "progress_clamped", "progress_below_clamped", "progress_above_clamped", "position_clamped",
                          "progress_to_dist_linear", "empty_path_default", "interpolate_idx_zero", "interpolate_beyond_last",
@@ -52,6 +54,14 @@ class C19(Property):
                          # Props/C19Ieee.lean: the order part of PosLaws for the driver's Float; the search finds an exact hit for IEEE doubles
                          "posLaws_order_float", "bsLoop_hit_ieee", "idxOfDist_hit_ieee", "idxOfDist_hit_float"]
     partial_theorems = {
+        "positionAt_progress_err_float32 / idxOfDist_spec_ieee": "Props/C19IeeeSearch.lean (sixth session, wave 7): the binary search specified from IEEE order facts alone (no arithmetic; generic over IeeeOrd): "
+            "idxOfDist_spec_ieee — on a weakly sorted NaN-free list and a non-NaN d the search returns the LAST index holding d on a hit (±0 identified), otherwise the first index whose length exceeds d; "
+            "idxOfDist_bracket_float — in range the index brackets d (strictly on both sides, or a hit of the right end; i = 0 only on a hit of lengths[0]; i = n impossible); idxOfDist_below_ieee / _beyond_ieee. "
+            "Composed with interpolate_err_float32: positionAt_dist_err_float32 / positionAt_dist_on_polyline_float32 / positionAt_progress_err_float32 — for a curve with sorted lengths and Bounded19 vertices, "
+            "position_at(q) itself (through progress_to_dist, idx_of_dist, interpolate_vertices) is a vertex of the path or within interpBound < 1/4 px per coordinate of the exact convex combination on the "
+            "bracketing segment: every hypothesis of the interpolation lemma about the bracket is now DERIVED from the search. PARTIAL: the four no-overflow conditions `SegFinite` on the one bracketing "
+            "non-degenerate segment stay a hypothesis (segFinite_statement records it; needs 'no overflow from a bound on the exact value' for f32 ⊕ ⊖ ⊗, f64 ⊖ and `as f32`, present in Lemmas/FloatErrRange.lean "
+            "only for f64 ⊗ ⊘). Kernel-evaluated on a three-vertex curve (demo_idx: in range, hits, ends, out of range, −0 hitting +0, last duplicate)",
         "interpolate_err_float32 / position_lipschitz_segment_float32": "Props/C19IeeeErr.lean (sixth session, wave 6): the ERROR side of C19 on IEEE floats. interpolate_err_float32 — the position "
             "interpolate_vertices returns inside a non-degenerate segment is within interpBound = 7/32 + 2^-20 px per coordinate of the exact convex combination of the two vertices (seven roundings counted; "
             "coordinates Bounded19; weight in [0,1] derived); segment_length_err_float32 — the booked f32 length of a segment squared is within a factor 1 ± 3·2^-22 of the exact squared chord (floor E ≥ 2^-100: "
